@@ -169,6 +169,18 @@ pub fn nodeid_cmd(t: &[&str]) -> String {
             let a = arr32(&unhx(t[1])).expect("32 bytes");
             let n = NodeId::new(&a);
             let from: NodeId = a.into();
+            // a serialisation that fails half way (a closed sink) must not affect the next one
+            struct Closed;
+            impl std::io::Write for Closed {
+                fn write(&mut self, _: &[u8]) -> std::io::Result<usize> {
+                    Err(std::io::Error::new(std::io::ErrorKind::BrokenPipe, "closed"))
+                }
+                fn flush(&mut self) -> std::io::Result<()> {
+                    Ok(())
+                }
+            }
+            let other = NodeId::new(&[0x11; 32]);
+            let _ = serde_json::to_writer(Closed, &other);
             let ser = serde_json::to_string(&n).unwrap();
             format!(
                 "raw={} asref={} from={} eqraw={} ser={} disp={} dbg={} dbgp={}",
